@@ -41,9 +41,34 @@ PROPS["C17"] = {
     ],
 }
 
+MP4_TRUSTED = [
+    "hand-written model lean/MediaSan/Mp4/{Header,Tree,Sanitize}.lean of mp4san/src/lib.rs and parse/*.rs, tied by differential execution on every run",
+    "MediaSan/Spec/{Mp4Walk,Mp4Rules}.lean: independent box walker and the declarative reading of the property (evaluated on the real output)",
+    "ideal-cursor model of std::io::Cursor / futures BufReader / SeekSkipAdapter (seekable) and of a strict custom Skip (strict); sparse-stream readers of the harness",
+    "bytes::BytesMut split/advance, derive(ParseBox/ParsedBox) expansion, Vec/BytesMut lengths below isize::MAX",
+]
+MP4_RULE = ("cases = `remux` generator (1-4 traks, stco/co64 mix, unknown/uuid siblings at all five levels, 32/64-bit/until-end headers, "
+            "entries from the boundary lattice {0,1,2^31-1,2^31,2^32-2,2^32-1,2^63,2^64-1} +- shift, gaps {0..40, 64, 1000, 65536, 2^32-8.., 2^33+5} realised as sparse free/skip boxes, "
+            "1-3 sparse mdat boxes with interleaved free/skip/meta/meco, earlier moov boxes, config limits around the moov size) x {seekable, strict} readers, "
+            "one tenth byte-flipped and one tenth truncated; plus moov-first (no-op) files. non-trivial = the scan got past the ftyp box (any tag other than E-InvalidBoxLayout/E-UnsupportedFormat on a 0-1 box file); distinct = distinct case lines")
+
+PROPS["C01"] = {
+    "extract": ["checked_add_signed"],
+    "rule": MP4_RULE,
+    "trivial_if_any": ["boxes0", "boxes1"],
+    "shards": {"quick": 4, "thorough": 16},
+    "trusted_base": MP4_TRUSTED,
+    "assumptions": COMMON_ASSUME + ["that the rewrite traversal visits exactly the tables an independent walker finds is checked per case (Spec_C01 on the real output), not yet proved"],
+}
+
 NOT_APPLICABLE = {}
 
 MANIFEST_TEXT = {
+    "C01": {
+        "text": "Lean theorems about the model of the MP4 rewrite: planRewrite arithmetic (shift = |metadata| - span.offset, fits i32, padding only when it zeroes the shift, refusal iff neither fits), exactness of the table rewrite for every width/count/displacement (each entry = old + shift, field never wraps, refusal iff an entry leaves its field, no panic), and the per-entry test equals the extracted checked_add_signed. The model is compared with the real crate on the remux generator (sparse gaps up to > 2^33, boundary entries, both reader kinds) and Spec_C01 (independent walker: same tables, every entry shifted by |md| - span.offset) is evaluated on the real output of every case.",
+        "note": "Partial: the theorems cover the decision arithmetic and the table rewrite; that the traversal reaches exactly the tables of every trak is established per generated case by the walker-based Spec, not by a theorem. Trusted: Lean kernel; propext, Quot.sound, Classical.choice; the hand-written model (validated differentially); the walker; harness + driver.",
+        "technique": "Lean 4 proof (induction over the entry array; case analysis of the rewrite plan) + differential correspondence with spec evaluation on the implementation's output",
+    },
     "C17": {
         "text": "Schema-generic Lean theorems (parse∘put = id on well-formed values, put∘parse = id on the success domain, no panic with >= ENCODED_LEN bytes, reserved-byte violations are InvalidInput) instantiated at chunk schemas regenerated from webpsan/src/parse/*.rs on every run; table obligations (by decide) that every integer getter/putter pair agrees and is little-endian, that put_buf writes fields in parse order, and that declared ENCODED_LEN is the field sum. Correspondence through the public webpsan::parse API, exhaustive for 8/16-bit primitives, judged against a hand-written little-endian layout oracle.",
         "note": "Trusted: Lean kernel; propext, Quot.sound (Classical.choice where simp uses it); the extraction anchors; semantics of bytes::Buf/BufMut method names and bitflags::from_bits; the hand-written layout oracle; harness + driver.",
